@@ -519,3 +519,124 @@ Print Assumptions C03_vol_create_keeps_wf_needs_valid_utf16.
 Print Assumptions C03_vol_rename_keeps_wf_closed.
 Print Assumptions C03_vol_rename_keeps_wf_judge.
 Print Assumptions C03_vol_remove_file_keeps_wf.
+
+(* ================================================================ a chain-backed directory that GROWS (Model/VolChainGrow.v,
+   Proofs/VolChainGrowProofs.v; the full success statement is Props/C01.v C01_volchain_grow_create_decodes).
+   vol_create_file_grow = dir.create_file(name) in a directory referenced from the fixed root of a FAT12/16 volume, with the
+   allocation of new clusters (through the mirrored FAT copies, zero fill, link) when the run does not fit into the chain. *)
+From FatVerif Require Import Model.VolChainDir Model.VolChainGrow Proofs.VolChainDirProofs Proofs.VolChainGrowProofs Proofs.VolChainGrowExamples.
+
+(* ---- a successful create_file keeps the volume well formed, whether or not the directory grew: no clause of Spec/Wf.v is violated
+   afterwards - the new clusters are owned by the directory's chain (no lost cluster, no cross-link: they were free), the chain
+   is intact, the new cluster is zero behind the written slots (nothing follows the end marker), the run is complete, the alias
+   is new, and the library's own existence check excludes a duplicate long name (the WDupLong link) - and every premise holds
+   for the result, so the theorem applies again (with the longer chain) *)
+Theorem C03_volchain_grow_keeps_wf : forall fold upper oem im fi l name now range im' fi' l' ra ed children labels rb,
+  let g := parse_geom im in
+  fold_agrees upper fold ->
+  fixed_root_geom g /\ g_cluster_size g mod 32 = 0 -> FatProofs.bytes_ok im ->
+  fi_inv fstore (val_ft (ft_of g)) (store_of g im) fi (g_clusters g) ->
+  Wf.wf_issues fold im = [] -> v_root (abs im) = ra ++ NDir ed (Some l) children [] labels :: rb ->
+  N.of_nat (cluster_slots g * length l) < 134217728 ->
+  Forall (fun u => utf16_okb u = true) (map e_lfn (map node_entry children)) -> str_valid name = true ->
+  TimeProofs.datetime_valid now = true ->
+  vol_create_file_grow upper oem im fi l name now = (Ok (Some range), (im', fi', l')) ->
+  Wf.wf_issues fold im' = [] /\
+  parse_geom im' = g /\ FatProofs.bytes_ok im' /\ fi_inv fstore (val_ft (ft_of g)) (store_of g im') fi' (g_clusters g) /\
+  exists children',
+    v_root (abs im') = ra ++ NDir ed (Some l') children' [] labels :: rb /\
+    Forall (fun u => utf16_okb u = true) (map e_lfn (map node_entry children')).
+Proof.
+  intros fold upper oem im fi l name now range im' fi' l' ra ed children labels rb g FA Hg Hb Hfi Hwf Hroot Hsm Hok Hv Hnow H.
+  destruct (vol_grow_create_decodes upper oem fold im fi l name now range im' fi' l' ra ed children labels rb FA Hg Hb Hfi Hwf Hroot Hsm Hok Hv Hnow H)
+    as (news & c1 & c2 & ne & st & X). decompose [and] X.
+  split; [assumption|]. split; [assumption|]. split; [assumption|]. split; [assumption|].
+  exists (c1 ++ NFile ne None [] :: c2). split; assumption.
+Qed.
+(* ... for the folding the judge runs no hypothesis about the folding is left *)
+Theorem C03_volchain_grow_keeps_wf_judge : forall upper oem im fi l name now range im' fi' l' ra ed children labels rb,
+  let g := parse_geom im in
+  fixed_root_geom g /\ g_cluster_size g mod 32 = 0 -> FatProofs.bytes_ok im ->
+  fi_inv fstore (val_ft (ft_of g)) (store_of g im) fi (g_clusters g) ->
+  Wf.wf_issues (wf_fold upper) im = [] -> v_root (abs im) = ra ++ NDir ed (Some l) children [] labels :: rb ->
+  N.of_nat (cluster_slots g * length l) < 134217728 ->
+  Forall (fun u => utf16_okb u = true) (map e_lfn (map node_entry children)) -> str_valid name = true ->
+  TimeProofs.datetime_valid now = true ->
+  vol_create_file_grow upper oem im fi l name now = (Ok (Some range), (im', fi', l')) ->
+  Wf.wf_issues (wf_fold upper) im' = [].
+Proof.
+  intros upper oem im fi l name now range im' fi' l' ra ed children labels rb g Hg Hb Hfi Hwf Hroot Hsm Hok Hv Hnow H.
+  destruct (vol_grow_create_decodes upper oem (wf_fold upper) im fi l name now range im' fi' l' ra ed children labels rb
+              (wf_fold_agrees upper) Hg Hb Hfi Hwf Hroot Hsm Hok Hv Hnow H) as (news & c1 & c2 & ne & st & X). decompose [and] X. assumption.
+Qed.
+
+(* ---- THE KNOWN CLASS `nospace-during-entry-write` AS A THEOREM.  The same premises, NO cluster free (count_free = 0), and
+   create_file answers NotEnoughSpace.  Then: chain and FS-info latch as before; no byte changes outside the directory's own
+   clusters - so every FAT entry, both FAT copies, the root region, every other cluster are as before, count_free is still 0 -;
+   the decoder finds EVERY node of the volume as before (same entries, chains, contents, children of that directory included);
+   the only thing that may differ is the issue list [iss'] of that directory, and the findings of Spec/Wf.v afterwards are
+   exactly those: EITHER nothing, and then no byte of the device changed, OR exactly ONE orphan long-name run reported at the end
+   of the directory (index = its number of slots), and then the device did change: the existence check had passed, the name
+   needs long-name slots (a run of more than one slot) and the position found by find_free_entries lies inside the chain - the
+   free tail of the last cluster took a prefix of the long-name slots (slot layer: C01_write_entry_cases, C01_failed_write_keeps_entries).
+   So: no orphan run if the name needs no long-name slots or the tail had no free slot. *)
+Theorem C03_volchain_grow_nospace_residue : forall fold upper oem im fi l name now im' fi' l' ra ed children labels rb,
+  let g := parse_geom im in
+  fixed_root_geom g /\ g_cluster_size g mod 32 = 0 -> FatProofs.bytes_ok im ->
+  fi_inv fstore (val_ft (ft_of g)) (store_of g im) fi (g_clusters g) ->
+  Wf.wf_issues fold im = [] -> v_root (abs im) = ra ++ NDir ed (Some l) children [] labels :: rb ->
+  N.of_nat (cluster_slots g * length l) < 134217728 -> TimeProofs.datetime_valid now = true ->
+  Abs.count_free g im = 0 ->
+  vol_create_file_grow upper oem im fi l name now = (Err ENotEnoughSpace, (im', fi', l')) ->
+  l' = l /\ fi' = fi /\
+  (forall a, (forall c, In c l -> ~ in_cluster g c a) -> img_get im' a = img_get im a) /\
+  (forall x, 2 <= x < g_clusters g + 2 -> fat_val g im' x = fat_val g im x) /\ Abs.count_free g im' = 0 /\
+  (forall c, 2 <= c < g_clusters g + 2 -> ~ In c l -> cluster_bytes g im' c = cluster_bytes g im c) /\
+  parse_geom im' = g /\ FatProofs.bytes_ok im' /\ fi_inv fstore (val_ft (ft_of g)) (store_of g im') fi (g_clusters g) /\
+  exists iss',
+    v_root (abs im') = ra ++ NDir ed (Some l) children iss' labels :: rb /\
+    v_root_issues (abs im') = [] /\ v_labels (abs im') = v_labels (abs im) /\
+    v_geom (abs im') = v_geom (abs im) /\ v_status (abs im') = v_status (abs im) /\
+    Wf.wf_issues fold im' = map (Wf.dir_issue (e_cluster ed)) iss' /\
+    ((iss' = [] /\ forall o, img_get im' o = img_get im o) \/
+     (iss' = [DOrphanLfn (N.of_nat (cluster_slots g * length l))] /\ ~ (forall o, img_get im' o = img_get im o) /\
+      exists a st p, check_for_existence upper oem (chain_dir_slots g im l) name (Some false) = Ok (Fresh a) /\ stamp_create now = Ok st /\
+        1 < len_N (entry_run name (create_sfn_entry false a 0 None st)) /\
+        find_free_entries (Chained (cluster_slots g)) (chain_dir_slots g im l) (len_N (entry_run name (create_sfn_entry false a 0 None st))) = Ok p /\
+        p < N.of_nat (cluster_slots g * length l))).
+Proof. intros fold upper oem. exact (vol_grow_nospace_residue upper oem fold). Qed.
+
+(* the witness on the 64-sector FAT12 volume (Proofs/VolChainGrowExamples.v; the `_refuted` form is Props/C01.v
+   C01_volchain_grow_nospace_unchanged_refuted): directory D (cluster 2, 16 slots, 2 in use), every other cluster owned by the
+   file F - every premise holds, count_free = 0.  create_file of a 200-character name (16 long-name slots + 1) in D:
+   NotEnoughSpace; chain and latch as before; FAT copies and root region byte-identical; slots 2 .. 15 of cluster 2 hold the
+   first 14 long-name slots (orders 0x50, 15, .., 3); the decoder lists D's children and F exactly as before and reports
+   OrphanLfn(D, 16) and nothing else.  A two-slot name still fits into the tail and is created. *)
+Example C03_volchain_grow_nospace_example :
+  (let im := ex_full_im in
+   (fixed_root_geom (parse_geom im) /\ g_cluster_size (parse_geom im) mod 32 = 0) /\ FatProofs.bytes_ok im /\
+   fi_inv fstore (val_ft (ft_of (parse_geom im))) (store_of (parse_geom im) im) ex_fi0 (g_clusters (parse_geom im)) /\
+   Wf.wf_issues (fun x => x) im = [] /\
+   (exists ed d1 d2 rb, v_root (abs im) = [] ++ NDir ed (Some [2]) [NDot d1; NDot d2] [] [] :: rb) /\
+   N.of_nat (cluster_slots (parse_geom im) * length [2]) < 134217728 /\ TimeProofs.datetime_valid ex_vol_now = true /\
+   Abs.count_free (parse_geom im) im = 0) /\
+  match vol_create_file_grow upper_ascii oem_decode_lossy ex_full_im ex_fi0 [2] ex_long_name ex_vol_now with
+  | (r, (im', fi', l')) =>
+    r = Err ENotEnoughSpace /\ l' = [2] /\ fi' = ex_fi0 /\
+    map (fun x => snd x) (ex_kids im') = [[DOrphanLfn 16]; []] /\ map (fun x => snd (fst x)) (ex_kids im') = [[0; 0]; []] /\
+    Wf.wf_issues (fun x => x) im' = [Wf.WOrphanLfn 2 16] /\
+    Abs.count_free (parse_geom ex_full_im) im' = 0 /\
+    img_read im' 512 1536 = img_read ex_full_im 512 1536 /\
+    map (fun k => img_get im' (2048 + 32 * k)) [0; 1; 2; 3; 15] = [46; 46; 80; 15; 3] /\ img_get ex_full_im (2048 + 64) = 0 /\
+    fst (vol_create_file_grow upper_ascii oem_decode_lossy ex_full_im ex_fi0 [2] [97] ex_vol_now) = Ok (Some (2, 4))
+  end.
+Proof.
+  cbv zeta. split; [exact ex_full_premises|]. pose proof ex_grow_nospace as X.
+  destruct (vol_create_file_grow upper_ascii oem_decode_lossy ex_full_im ex_fi0 [2] ex_long_name ex_vol_now) as [r [[im' fi'] l']].
+  destruct X as (X1 & X2 & X3 & X4 & X5 & X6 & X7 & X8 & X9 & X10). rewrite X4. cbn [map snd fst].
+  repeat (split; [assumption || reflexivity|]). exact X10.
+Qed.
+
+Print Assumptions C03_volchain_grow_keeps_wf.
+Print Assumptions C03_volchain_grow_keeps_wf_judge.
+Print Assumptions C03_volchain_grow_nospace_residue.
